@@ -49,6 +49,13 @@ fails_otherwise / *_tolerance / membership / ok_gates / option_default / filled_
 that layout structs, push-built paths, local closures, try_for_each / try_fold loops, collected intermediate Vecs, `or_else` /
 match-expression error handling, gate helpers, renamed parameters / fields and an inlined assemble_buildpack_directory are
 the same program; R5 also counts io::Write on a Stdout handle as stdout output.
+Robustness round 5 (benign variants selftest/benign/C15-r5-*, mutants selftest/mutants/C15-r5-*): a zip with a never-ending
+counter (`(1..).zip(order.iter())`, either position) is `enumerate` (C15_helpers.counter_nf: R7 / R4 / R5 iterations); R5's
+per-entry test is "some root's buildpack_id == the entry's id" whether spelled `roots.iter().any(..)` or as membership of the
+id in a collection derived element by element from the root nodes (`root_ids.contains(id)`, H.elementwise_base), also inside
+a printing helper with an early `continue`; package.toml written by `File::create(p)?.write_all(data)?` is `fs::write(p, data)?`
+(one write_all on that handle on every path to success, both failures reported); R7/dependencies-map is UNPROVEN, not
+VIOLATED, when only the iteration around the record could not be read.
 Not decided: cargo's build, contents of binaries, interrupted-run states beyond the wipe, the constant written as the
 libcnb.rs package.toml.
 """
@@ -168,9 +175,14 @@ def run(ctx, rep):
             rep.check(vd == 'ok', 'R7', 'every-node', p.where(), 'the packaging call runs for every node of get_dependencies(graph, selected)',
                       'not every node of the build order is packaged into a wiped directory: %s' % why)
         rec = [e for e in may1 if e.kind == 'RECORD' and dest is not None and H.same_through_helpers(sl, e.path, dest)]
-        ok = len(rec) == 1 and len(p.args or ()) > 5 and H.same_object(sl, strip(p.args[5]), strip(rec[0].args[0])) and H.every_element(E1, rec[0])[0] == 'ok' \
+        rvd = H.every_element(E1, rec[0]) if len(rec) == 1 else ('none', '', None)
+        ok = len(rec) == 1 and len(p.args or ()) > 5 and H.same_object(sl, strip(p.args[5]), strip(rec[0].args[0])) and rvd[0] == 'ok' \
             and H.always_before(E1, p, rec[0])
-        rep.check(ok, 'R7', 'dependencies-map', p.where(), 'the id -> directory map handed to the packaging call is the one every packaged node is recorded in (once, after it was packaged)',
+        if not ok and len(rec) == 1 and rvd[0] == 'unproven' and len(p.args or ()) > 5 and H.same_object(sl, strip(p.args[5]), strip(rec[0].args[0])) and H.always_before(E1, p, rec[0]):
+            # the right map, recorded after packaging — only the iteration it happens in could not be read: not a breach that was seen
+            rep.unproven('R7', 'dependencies-map', p.where(), 'cannot show that every packaged node is recorded in the map handed to package_buildpack: %s' % rvd[1])
+        else:
+            rep.check(ok, 'R7', 'dependencies-map', p.where(), 'the id -> directory map handed to the packaging call is the one every packaged node is recorded in (once, after it was packaged)',
                   'the map of already packaged buildpacks handed to package_buildpack is not the map the destinations are recorded in (once per node, after packaging)')
     # ---- R2 ------------------------------------------------------------------------------------------
     # stated on assemble_buildpack_directory (destination = its first parameter, sources = its own parameters) — or, when
@@ -287,11 +299,18 @@ def run(ctx, rep):
     # package.toml / descriptor source / composite descriptor: on the effects of the two packaging functions (the writes may
     # sit in private helpers), with assemble_buildpack_directory as a vocabulary entry so that its call sites are enumerated
     rep.analysed(pl)
-    Ep = Effects(prog, sl, vocab={AS: ('ASSEMBLE', 0)})
+    Ep = Effects(prog, sl, vocab={AS: ('ASSEMBLE', 0), 'std::io::Write::write_all': ('WRITE_ALL', 0)})
     mayp = H.expand(Ep, pl, 'may')
     reported = lambda e: all(x[4] == 'ok' for x in H.error_flow(prog, e))
-    wr = [e for e in mayp if e.call is not None and e.call.is_('std::fs::write')]
-    ok = len(wr) == 1 and comps(wr[0].path, L.param_pred(pl, 4)) == ('package.toml',) and reported(wr[0])
+    wr = [(e, reported(e)) for e in mayp if e.call is not None and e.call.is_('std::fs::write')]
+    # `File::create(p)?.write_all(data)?` is what `fs::write(p, data)?` is defined as: a truncating create whose handle gets
+    # exactly one write_all, on every path from the creation to a success of that function, both failures reported
+    for cr in mayp:
+        if cr.call is None or not cr.call.is_('std::fs::File::create', 'std::fs::File::create_new', 'std::fs::OpenOptions::open'):
+            continue
+        wa = H.handle_writes(Ep, mayp, cr)
+        wr.append((cr, cr.call.is_('std::fs::File::create') and len(wa) == 1 and reported(cr) and reported(wa[0]) and H.follows_on_success(Ep, cr, wa[0])))
+    ok = len(wr) == 1 and comps(wr[0][0].path, L.param_pred(pl, 4)) == ('package.toml',) and wr[0][1]
     rep.check(ok, 'R2', 'layout/package.toml', w(pl), 'package.toml written into the destination, error propagated', 'package.toml is not written to <destination>/package.toml')
     asm = [e for e in mayp if e.kind == 'ASSEMBLE']
     ok = len(asm) == 1
@@ -391,6 +410,7 @@ def run(ctx, rep):
         pe = [e for e in may1 if e.kind == 'PRINT_OUT' or (e.kind == 'OUT_WRITE' and any(e.call is oc_ for _, oc_ in out_writes))]
         ok = len(pe) == 1 and pe[0].call is c
         printed_ok = False
+        unread = []
         if ok:
             e = pe[0]
             s = H.selection_open(E1, e)
@@ -406,29 +426,48 @@ def run(ctx, rep):
                 src_ok = H.same_collection(sl, it.base, maps[0])
                 sel_ok = False
                 id_test = []
+                # "some selected root node has this id": `roots.iter().any(|r| r.buildpack_id == *id)`, or membership of the id in a
+                # collection derived element by element from the root nodes (`root_ids.contains(&id)` with root_ids =
+                # roots.iter().map(|r| &r.buildpack_id).collect()) — read as: for each root element, the test `<key of root> == <item>`
                 for v, oc in H.open_views(sl, preds[0]):
+                    v, oc = H._peel_not(strip(v), oc)
                     v = strip(v)
-                    if v[0] == 'call' and v[1].endswith('::any') and oc is True and v[2]:
-                        over = H.decompose(sl, v[2][0])
-                        this = not over[1] and not over[2] and any(H.same(over[0], r) or H.same(H.deep_nf(sl, over[0]), H.deep_nf(sl, r)) for r in roots)
-                        sel_ok = sel_ok or this
-                        if this and len(v[2]) == 2:
-                            # ... and "has this id" is: root.buildpack_id == <id of the entry>
-                            # (the root nodes may be several alternatives: `vec![node]` | all nodes | none — the test is read for each)
-                            ra = H.iters.alts(sl, v[2][0])
-                            if not ra:
+                    if not (v[0] == 'call' and oc is True and len(v[2]) == 2):
+                        continue
+                    if v[1].endswith('::any'):
+                        test = lambda el_, v_=v: sl.apply_closure(v_[2][1], (el_,))
+                    elif v[1].endswith('::contains'):
+                        test = lambda el_, v_=v: ('call', 'std::cmp::PartialEq::eq', (el_, v_[2][1]), None)
+                    else:
+                        continue
+                    mats = []
+                    src = H.elementwise_base(v[2][0], mats)
+                    over = H.decompose(sl, src) if src is not None else (None, True, True)
+                    this = not over[1] and not over[2] and any(H.same(over[0], r) or H.same(H.deep_nf(sl, over[0]), H.deep_nf(sl, r)) for r in roots)
+                    if this and not all(H.never_mutated(prog, m_) is True for m_ in mats):
+                        # a collected id set that is (or may be) pushed to / extended afterwards is not "the root nodes' ids"
+                        this = False
+                        unread.append('the collection the id is looked up in is built from the root nodes but may be changed afterwards')
+                    sel_ok = sel_ok or this
+                    if this:
+                        # ... and "has this id" is: root.buildpack_id == <id of the entry>
+                        # (the root nodes may be several alternatives: `vec![node]` | all nodes | none — the test is read for each)
+                        ra = H.iters.alts(sl, v[2][0])
+                        rel = H.iters.alts(sl, src)
+                        if not ra or len(ra) != len(rel) or any(fl for _, _, fl in ra):
+                            id_test.append(False)
+                            continue
+                        for (el, _, _), (root_el, _, _) in zip(ra, rel):
+                            r = test(el)
+                            r, roc = H._peel_not(strip(r), True) if r is not None else (None, True)
+                            r = strip(r) if r is not None else None
+                            if r is not None and r[0] == 'call' and len(r[2]) == 2 and ((r[1].endswith('::eq') and roc is True) or (r[1].endswith('::ne') and roc is False)):
+                                a, b = H.peel_path(r[2][0]), H.peel_path(r[2][1])
+                                is_root_id = lambda x: x[0] == 'field' and x[2] == 'buildpack_id' and H.same(x[1], root_el)
+                                is_entry_id = lambda x: x[0] == 'field' and x[2] == '0' and it.elem is not None and H.same(x[1], H.entry_of(it))
+                                id_test.append((is_root_id(a) and is_entry_id(b)) or (is_root_id(b) and is_entry_id(a)))
+                            else:
                                 id_test.append(False)
-                            for el, _, _ in ra:
-                                r = sl.apply_closure(v[2][1], (el,))
-                                r, roc = H._peel_not(strip(r), True) if r is not None else (None, True)
-                                r = strip(r) if r is not None else None
-                                if r is not None and r[0] == 'call' and len(r[2]) == 2 and ((r[1].endswith('::eq') and roc is True) or (r[1].endswith('::ne') and roc is False)):
-                                    a, b = H.peel_path(r[2][0]), H.peel_path(r[2][1])
-                                    is_root_id = lambda x: x[0] == 'field' and x[2] == 'buildpack_id' and H.same(x[1], el)
-                                    is_entry_id = lambda x: x[0] == 'field' and x[2] == '0' and it.elem is not None and H.same(x[1], H.entry_of(it))
-                                    id_test.append((is_root_id(a) and is_entry_id(b)) or (is_root_id(b) and is_entry_id(a)))
-                                else:
-                                    id_test.append(False)
                 ok = src_ok and sel_ok
                 # the printed value is the map value (packaged dir) of that entry
                 for av in e.args or ():
@@ -436,8 +475,11 @@ def run(ctx, rep):
                         if x[0] == 'call' and x[1].endswith(('to_string_lossy', 'std::path::Path::display', 'std::path::PathBuf::display')) and x[2]:
                             coll, proj = L.loop_element(x[2][0])
                             printed_ok = printed_ok or (coll is not None and H.same_collection(sl, coll, maps[0]) and proj == ('1',))
-        rep.check(ok and printed_ok, 'R5', 'selection', c.where(), 'prints the packaged directory of each selected root buildpack',
-                  'the stdout print is not the for_each over the packaged dirs filtered by the selected root nodes')
+        if not (ok and printed_ok) and unread:
+            rep.unproven('R5', 'selection', c.where(), 'cannot show that exactly the selected root buildpacks\' directories are printed: %s' % unread[0])
+        else:
+            rep.check(ok and printed_ok, 'R5', 'selection', c.where(), 'prints the packaged directory of each selected root buildpack',
+                      'the stdout print is not the for_each over the packaged dirs filtered by the selected root nodes')
         if ok:
             rep.check(bool(id_test) and all(id_test), 'R5', 'selection-test', c.where(), 'an entry is printed iff some selected root node\'s buildpack_id equals the entry\'s id',
                       'the per-entry test is not `root.buildpack_id == <entry id>`')
